@@ -37,7 +37,8 @@ CLAIMED = {
              "the value the real extraction writes into the result tables, as z3 terms over all numeric inputs. Linear "
              "set-points are decided on the state after one undamped Newton step from an arbitrary state (their rows are "
              "linear, so one step is exact and the fixed entries are inductive); pump curve and compressor ratio at the "
-             "exact fixed point of the element's own residual row.",
+             "exact fixed point of the element's own residual row. The same obligations are decided in the thermal modes "
+             "(sequential, bidirectional), where the solved temperatures enter densities and volume flows.",
         technique="symbolic execution of the real Python source + z3 (rewriter, linear abstraction, NRA) per path; "
                   "concolic path selection; counterexamples replayed on the real pipeflow",
         design="4/C03"),
